@@ -36,3 +36,34 @@ def parse_tie(ctx, texts, with_comments=(False, True), cfg='cached', stage='S2b:
                               model=rep[:400], want=(want[:400] if out[0] == 'ok' else None)))
     ctx.obligation('tie:' + stage, not diffs, 'tie', '%d traces compared; first differences: %r' % (len(reqs), diffs[:2]))
     return diffs
+
+
+def full_tie(ctx, texts, with_comments=(False, True), stage='S2:text->tree (lexer+LR+actions)'):
+    """Tie S2: the real parse(text, with_comments) vs the composed lean model Model.Parser.parse:
+    identical trees (positions, token maps, comments) or identical exception class + message."""
+    from calmjs.parse.parsers.es5 import parse
+    from calmjs.parse.exceptions import ECMASyntaxError
+    drv = ctx.driver('drv_parse')
+    texts = [t for t in texts if not any(0xD800 <= ord(c) <= 0xDFFF for c in t)]
+    reqs, meta = [], []
+    for t in texts:
+        for wc in with_comments:
+            reqs.append('text %d %s' % (1 if wc else 0, proto.enc_str(t)))
+            meta.append((t, wc))
+    reps = drv.ask_many(reqs)
+    diffs = []
+    for (t, wc), r in zip(meta, reps):
+        try:
+            want = 'OK ' + proto.render(treedump.dump(parse(t, with_comments=wc), pos=True, tokmap=True, comments=True))
+            ctx.bump('S2:accept')
+        except ECMASyntaxError as e:
+            want = ('REGEXSYNTAX ' if type(e).__name__ == 'ECMARegexSyntaxError' else 'SYNTAX ') + proto.enc_str(str(e))
+            ctx.bump('S2:syntax-error')
+        except Exception as e:
+            want = 'INTERNAL ' + type(e).__name__
+            ctx.bump('S2:other-exception')
+        ctx.case(('S2', wc, t), nontrivial=len(t) > 3)
+        if r != want and not (r.startswith('INTERNAL') and want.startswith('INTERNAL')):
+            diffs.append(dict(text=t, with_comments=wc, model=r[:400], impl=want[:400]))
+    ctx.obligation('tie:' + stage, not diffs, 'tie', '%d parses compared; first differences: %r' % (len(reqs), diffs[:2]))
+    return diffs
